@@ -295,3 +295,14 @@ def run(pid, tier, seed, args):
     spec = make_spec(tier)
     return run_specs(pid, tier, seed, args, [("c15", spec, spec.depth, 60 if tier == "quick" else 1200)], rule=RULE,
                      extra_cov=cov, extra_viols=res["viols"], extra_samples=[{"family_scenario": scs[37].to_json()}])
+
+
+def replay(path):
+    import json
+    from .. import runner
+    with open(path) as f:
+        rp = json.load(f)
+    if isinstance(rp.get("history"), dict):
+        return scen.replay_scenario(path, Mon, "C15")
+    import sys
+    return runner.generic_replay(sys.modules[__name__], "C15", path)
